@@ -64,6 +64,9 @@ func Params(name string) string {
 
 const MemPages = 4
 
+// StartMarker is the address of the start-function marker bytes.
+const StartMarker = 0x80
+
 // Binary returns the shim module.
 func Binary() []byte {
 	m := &wasmb.Module{}
@@ -97,6 +100,12 @@ func Binary() []byte {
 		}
 		c.Call(f.idx)
 		m.AddFunc(f.p, f.r, nil, c.B, f.s.name)
+	}
+	// start-function markers (C19): s1..s3 store 1 at StartMarker+i
+	for i := 0; i < 3; i++ {
+		c := &wasmb.Code{}
+		c.I32Const(int32(StartMarker + i)).I32Const(1).I32Store8(0)
+		m.AddFunc(nil, nil, nil, c.B, fmt.Sprintf("s%d", i+1))
 	}
 	m.Mem = &wasmb.Limits{Min: MemPages, Max: MemPages, HasMax: true}
 	m.Exports = append(m.Exports, wasmb.Export{Name: "memory", Kind: wasmb.KindMemory, Idx: 0})
